@@ -255,7 +255,12 @@ FLAGBITS = {4: [1, 2, 4, 8, 16], 3: [1, 2, 4, 8, 16, 128]}
 
 
 def run(ctx):
-XX, MC_CFG, ctx.workdir, name='traceid', timeout=3600))
+    import os
+    import time
+    os.environ['TZ'] = 'VRF+8'          # a host that is not on UTC: "the corresponding UTC instant" must not depend on it
+    time.tzset()
+    rnd = random.Random(ctx.seed)
+    ctx.expect_ok(run_tlc('LogDecode_MC', MC_CFG, ctx.workdir, name='traceid', timeout=3600))
     lw = LogWorld(rnd)
     dflt = default_event()
     subsets = [()] + [(k,) for k in OPT] + list(itertools.combinations(OPT, 2)) + \
